@@ -97,6 +97,10 @@ def run(ck, ctx):
                      "the recogniser (or its dispatching guard) tested with starts_with")
     ck.rule("R04.7", "segmentation independence of the decoder: a length-prefixed parser never rejects a frame between learning its size "
                      "and knowing it is complete (a read that ends inside a frame yields NeedMoreData, not a protocol error) - shared with C15")
+    ck.rule("R04.8", "every read is followed by a decoding pass: from the point where the bytes just read are appended to the input buffer, "
+                     "every path to the next stream.read (or out of the handler) passes the decoder (try_execute_command); whether a "
+                     "frame is complete is decided by the decoder on the whole buffer, never guessed from the last read alone (a read "
+                     "that carries only the tail of a frame - e.g. the LF of a CRLF split across reads - completes it)")
     ck.nd("that each reply equals the stand-alone reply (C01/C03)")
     ck.nd("segmentation behaviour beyond 'NeedMoreData consumes nothing' (RespCodec's incomplete-input contract is C15)")
     for cfg in ctx.configs:
@@ -367,6 +371,17 @@ def _r043_044(ck, prog, cfg):
     # the ParseError arm exists: switch over CommandResult with a ParseError edge reaching an error encode
     tec = [(b, t) for b, t in fn.calls() if is_callee(t, r"try_execute_command$")]
     ck.check(len(tec) == 1, "R04.3", "sequential-call" + _tag(cfg), "try_execute_command call not found exactly once", fn.where())
+    # R04.8: append => decode before the next read
+    apps = [(b, t) for b, t in fn.calls() if is_callee(t, r"BytesMut::extend_from_slice$", r"BufMut>::put_slice$", r"Extend<.*>>::extend$")
+            and _is_buf(fn, t["args"][0], "buffer")]
+    ck.floor("R04.8" + _tag(cfg), len(apps), 1)
+    tecb = {b for b, _ in tec}
+    for k, (b, t) in enumerate(apps):
+        path = lib2.path_avoiding(fn, b, lambda x: x in reads or fn.term(x)["k"] == "return", lambda x: x in tecb)
+        ck.check(path is None, "R04.8", "run:append#%d:decoded-before-next-read%s" % (k, _tag(cfg)),
+                 "after the bytes of a read were appended to the input buffer the handler can go back to reading without running the decoder "
+                 "(lines %s): a command completed by that read gets no reply until some later read arrives - a client waiting for it hangs"
+                 % _lines(fn, path or [])[:8], fn.where(t["ln"]), detail="try_execute_command on every path to the next read")
     # R04.4: flush
     exempt = set()
     for sb in fn.reachable_blocks():
